@@ -12,6 +12,7 @@ import (
 )
 
 type Exec struct {
+	inSpecCall bool // applying a contract inside a specification expression
 	P          *Program
 	Specs      *Specs
 	Obls       []*Obligation
